@@ -71,6 +71,8 @@ def inject(scratch, units, extra_tests=None):
                 a, b = rustscan.find_expr_after(src, it, s['key'], s.get('nth', 0))
             elif kind == 'call':
                 a, b = rustscan.find_call(src, it, s['key'], s.get('nth', 0))
+            elif kind == 'body':
+                a, b = it.body_open + 1, it.body_close
             elif kind == 'callat':
                 # key must end with the opening parenthesis of the call expression to cut out
                 ms = list(re.finditer(s['key'], rustscan.mask(src)[it.body_open:it.body_close]))
